@@ -49,20 +49,23 @@ def obligations(tier, seed):
         flags = ["--no-pointer-check"] if functional else []
         stubs = list(STUBS) + ([] if bnd.get("direct") else [CUT])
         if functional:
-            desc += "  [functional obligation: run with --no-pointer-check; the pointer/deallocated-object checks of the same code are discharged by api_step, api_step_in_callback and deliver_1_safe/deliver_direct]"
+            desc += "  [functional obligation: run with --no-pointer-check; the pointer/deallocated-object checks of the same code are discharged by api_step, api_step_in_callback and deliver_1_safe, deliver_2_safe and deliver_direct]"
         obs.append(Ob(name, harness="h_c11.c", func=func, desc=desc, encodes=encodes or ENC, unwind=unwind, unwindset=us, defines=d,
                       models=["c11_stubs.c"], flags=flags, tier=otier, timeout=timeout, mem_gb=mem_gb, solver=solver, stubs=stubs,
                       assumes=list(assumes), bounds=bounds_txt, outside=outside, reach=reach, vin_size=160, **kw))
 
     OUT = ("nested vbi_send_event from inside a handler (the decoder never does it; calling vbi_decode from a handler is forbidden); allocation failure; "
-           "other threads; lists longer than the stated bound")
+           "other threads; lists longer than the stated bound; traversals longer than the stated number of nested calls (note: termination of vbi_send_event is NOT "
+           "implied by the property - two handlers that each unregister and re-register themselves on every invocation keep one vbi_send_event going forever, "
+           "every new instance being called once)")
 
     ob("api_step", "h_api_step",
        "INV-STEP outside delivery: from every handler list satisfying I (0..3 records, symbolic functions/user pointers/32-bit masks) one call of "
        "vbi_event_handler_register / _unregister / _add / _remove with symbolic arguments: returns TRUE; the list afterwards is exactly the documented one "
        "(mask changed in place, record removed, or new record appended at the END; legacy add/remove act on ALL records of the function, ignoring user_data); "
        "I holds again; vbi->event_mask == OR of the registered masks (all 32 bits) hence Teletext enabled iff a TTX_PAGE handler exists; "
-       "vbi_teletext_channel_switched called exactly once iff the TTX_PAGE bit appears; event mutex released; no freed record touched, no double free",
+       "vbi_teletext_channel_switched called exactly once iff the TTX_PAGE bit appears; event mutex released; no freed record touched, no double free; "
+       "frame: decoder members next to the ones vbi_event_enable may reset (network, prog_info[], vps_pid) and next to the list head keep their sentinel values",
        dict(n0=3, cbk=1), ["end", "appended", "removed_two", "ttx_on", "ttx_off"], timeout=200,
        assumes=[ASSUME_I], bounds_txt="one API call from any list of <= 3 records; histories of any length (outside delivery) by induction over I while the list has <= 3 records before the call",
        outside=OUT)
@@ -103,22 +106,15 @@ def obligations(tier, seed):
     MTXT = ("masks: any subset of the 6 bits %s (CLOSE, TTX_PAGE, CAPTION, NETWORK, TRIGGER, one undefined bit); the list code treats mask bits uniformly "
             "(zero test, |=, & type), all 32 bits are covered by api_step*, deliver_1_safe and the [full] instance" % MASK6)
 
-    ob("deliver_2_nested", "h_deliver",
-       "from every list satisfying I (0..3 records) one event; up to two invoked handlers make one nested API call each (e.g. the first removes the third, the second "
-       "registers it again = new instance at the end of the order). " + DELIVER,
-       dict(n0=3, cbk=2), REACH_D, functional=True, timeout=400, assumes=[ASSUME_I, TYPES],
-       bounds_txt="list <= 3 records, 1 event, <= 2 nested API calls per event, one per callback; " + MTXT,
-       extra_defs=dict(MASK_AND=MASK6), outside=OUT)
-
     ob("deliver_2_nested_full", "h_deliver",
-       "deliver_2_nested with all 32-bit masks. " + DELIVER,
+       "deliver_2_safe with all 32-bit masks. " + DELIVER,
        dict(n0=3, cbk=2), REACH_D, functional=True, timeout=1800, otier="thorough", solver="cadical", assumes=[ASSUME_I, TYPES],
        bounds_txt="list <= 3 records, 1 event, <= 2 nested API calls per event, one per callback; all 32-bit masks", outside=OUT)
 
     ob("deliver_2_selfreadd", "h_deliver",
        "from every list satisfying I (0..3 records) one event; every invoked handler may make up to TWO nested API calls (so a handler can remove itself and register "
        "itself again = new instance at the end of the order, called at most once more), two nested calls per event in total. " + DELIVER,
-       dict(n0=3, cbk=2, nact=2, extra=dict(MASK_AND=MASK6)), REACH_D, functional=True, timeout=1800, otier="thorough", assumes=[ASSUME_I, TYPES],
+       dict(n0=3, cbk=2, nact=2, extra=dict(MASK_AND=MASK6)), REACH_D, functional=True, timeout=400, assumes=[ASSUME_I, TYPES],
        bounds_txt="list <= 3 records, 1 event, <= 2 nested API calls per event (both may come from one callback); " + MTXT, outside=OUT)
 
     ob("deliver_3_nested", "h_deliver",
@@ -127,15 +123,17 @@ def obligations(tier, seed):
        bounds_txt="list <= 3 records, 1 event, <= 3 nested API calls per event, one per callback; " + MTXT, outside=OUT)
 
     ob("deliver_2_safe", "h_deliver",
-       "as deliver_2_nested with ALL pointer checks on (no freed record read by the traversal or by the nested list walks after two nested removals/additions). " + DELIVER,
-       dict(n0=3, cbk=2, extra=dict(MASK_AND=MASK6)), REACH_D, timeout=1800, otier="thorough", assumes=[ASSUME_I, TYPES],
+       "from every list satisfying I (0..3 records) one event; up to two invoked handlers make one nested API call each (e.g. the first removes the third, the second "
+       "registers it again = new instance at the end of the order). " + DELIVER +
+       "All pointer checks on (no freed record read by the traversal or by the nested list walks after two nested removals/additions).",
+       dict(n0=3, cbk=2, extra=dict(MASK_AND=MASK6)), REACH_D, timeout=400, assumes=[ASSUME_I, TYPES],
        bounds_txt="list <= 3 records, 1 event, <= 2 nested API calls per event, one per callback; " + MTXT, outside=OUT)
 
     ob("deliver_2_events", "h_deliver",
        "from every list satisfying I (0..3 records) TWO events in a row (symbolic types), one nested API call per event: a registration/mask change/removal made "
        "during the first event is in force for the second (no stale cursor, no stale 'called' state). " + DELIVER,
-       dict(n0=3, cbk=1, nev=2), REACH_D, timeout=1800, otier="thorough", assumes=[ASSUME_I, TYPES],
-       bounds_txt="list <= 3 records, 2 events, <= 1 nested API call per event; all 32-bit masks", outside=OUT)
+       dict(n0=3, cbk=1, nev=2, extra=dict(MASK_AND=MASK6)), REACH_D, functional=True, timeout=1200, otier="thorough", assumes=[ASSUME_I, TYPES],
+       bounds_txt="list <= 3 records, 2 events, <= 1 nested API call per event; " + MTXT, outside=OUT)
 
     ob("deliver_wrappers", "h_deliver",
        "as deliver_1_safe, the nested call may also be one of the wrappers vbi_event_handler_unregister / vbi_event_handler_remove. " + DELIVER,
@@ -148,10 +146,10 @@ def obligations(tier, seed):
        bounds_txt="list <= 4 records, 4 handler functions x 2 user pointers, 1 event, <= 1 nested API call; all 32-bit masks", outside=OUT)
 
     ob("api_step_n5", "h_api_step", "api_step with lists of 0..5 records (of the 6 possible (function, user pointer) pairs)",
-       dict(n0=5, cbk=1), ["end", "appended", "removed_two", "ttx_on", "ttx_off"], timeout=900, otier="thorough", assumes=[ASSUME_I],
+       dict(n0=5, cbk=1), ["end", "appended", "removed_two", "ttx_on", "ttx_off"], timeout=300, assumes=[ASSUME_I],
        bounds_txt="one API call from any list of <= 5 records", outside=OUT)
     ob("api_step_in_callback_n5", "h_api_step_cb", "api_step_in_callback with lists of 0..5 records and every cursor position",
-       dict(n0=5, cbk=1), ["end", "cursor_patched", "cursor_tail_removed", "ttx_on_in_callback"], timeout=900, otier="thorough", assumes=[ASSUME_I],
+       dict(n0=5, cbk=1), ["end", "cursor_patched", "cursor_tail_removed", "ttx_on_in_callback"], timeout=300, assumes=[ASSUME_I],
        bounds_txt="one API call from any list of <= 5 records, every cursor position", outside=OUT)
 
     ob("events_seq", "h_events",
